@@ -221,6 +221,19 @@ INT_TAGS = ("limits", "conformal", "pidx", "nidx", "apipidx", "apinidx", "polyi"
             "tensors", "utensors", "numpoints", "cparked", "cinit", "ctens", "ctdone", "cstate")
 
 
+def _parse_obs(step, tag, t):
+    if tag == "meta":
+        step.obs["meta"] = dict(x.split("=", 1) for x in t[2:])
+    elif tag == "cstate":
+        step.obs[tag] = [int(t[2])]
+    elif tag in INT_TAGS:
+        step.obs[tag] = [int(v) for v in t[3:]]
+    elif tag in ("bytes", "written"):
+        step.obs[tag] = (int(t[2]), t[3])
+    else:
+        step.obs[tag] = [gl.fl(v) for v in t[3:]]
+
+
 def parse_output(text):
     """as gridlib.parse_output, with the integer-valued tags of condrv's xdump"""
     cases, cur, step = {}, None, None
@@ -237,7 +250,14 @@ def parse_output(text):
             cur.append(step)
         elif c == "o" and step is not None:
             t = line.split()
+            if len(t) < 2:
+                continue
             tag = t[1]
+            try:
+                _parse_obs(step, tag, t)
+            except (ValueError, IndexError):
+                pass     # a line cut short by a crash of the case: the crash itself is reported by the driver
+            continue
             if tag == "meta":
                 step.obs["meta"] = dict(x.split("=", 1) for x in t[2:])
             elif tag == "cstate":
@@ -355,7 +375,14 @@ def run(res, tier, seed, replay_cases=None):
         start_loaded = set(base) if c["start"] == "loaded" else set()
         tgt = [p for p in allp if p not in start_loaded]
         rr = vlib.rng(c["order_seed"], "target")
-        if c["target"] == "subset":
+        if c["target"] == "explicit":      # hand-made history (aimed at a case split of the proofs)
+            tgt = [tuple(p) for p in c["explicit_target"]]
+            if any(p not in allp for p in tgt):
+                stats["skipped_config"] += 1
+                continue
+            c["orders"] = [{"mode": "explicit", "ops": [("del", [tuple(p) for p in b]) for b in o]} for o in c["explicit_orders"]]
+            stats["subset_targets"] += 1
+        elif c["target"] == "subset":
             tgt = [p for p in tgt if rr.random() < 0.75]
             stats["subset_targets"] += 1
         else:
@@ -505,7 +532,8 @@ def run(res, tier, seed, replay_cases=None):
 
 
 def replay_of(c, oi):
-    cc = {k: v for k, v in c.items() if k in ("id", "spec", "steps", "start", "target", "fn", "probe_seed", "order_seed", "cand_prob", "cand_first")}
+    cc = {k: v for k, v in c.items() if k in ("id", "spec", "steps", "start", "target", "fn", "probe_seed", "order_seed", "cand_prob", "cand_first",
+                                              "tie_only", "explicit_target", "explicit_orders")}
     return {"kind": "impl-counterexample", "case": cc, "order": oi, "script": order_script(c, oi, c["orders"][oi])[:400]}
 
 
@@ -720,6 +748,8 @@ def check_case(res, c, outs_, tr_lines, pc_lines, stats, case_of_order):
 
     # ---- across orders
     ois = sorted(finals)
+    if c.get("tie_only"):
+        ois = []        # only the stepwise prediction of the model is judged
     if ois:
         f0 = finals[ois[0]]
         for oi in ois[1:]:
@@ -784,6 +814,14 @@ def corpus_cases():
                 "start": "loaded", "target": "complete", "fn": "hash", "probe_seed": 3, "order_seed": 3, "cand_prob": 0.3, "cand_first": True})
     out.append({"id": "w3", "spec": {"family": "localp", "dims": 2, "outs": 1, "ll": [], "rule": "semi-localp", "order": 2, "depth": 1}, "steps": [2],
                 "start": "loaded", "target": "subset", "fn": "hash", "probe_seed": 4, "order_seed": 4, "cand_prob": 0.0, "cand_first": False})
+    # semi-localp: (2,1) is the step-parent of the loaded (3,1) and has no other relative present: the sweep of the batch entry finds it
+    # (getLargestConnected looks at the step-parents of the present points), the single-point entry does not (relatives of (2,1) itself)
+    out.append({"id": "w4", "spec": {"family": "localp", "dims": 2, "outs": 1, "ll": [], "rule": "semi-localp", "order": 2, "depth": 0}, "steps": [3],
+                "start": "empty", "target": "explicit", "fn": "hash", "probe_seed": 5, "order_seed": 5, "cand_prob": 0.0, "cand_first": False, "tie_only": True,
+                "explicit_target": [[0, 0], [1, 0], [3, 0], [3, 1], [2, 1], [5, 0]],
+                "explicit_orders": [[[[0, 0]], [[1, 0]], [[3, 0]], [[3, 1]], [[2, 1], [5, 0]]],
+                                    [[[0, 0]], [[1, 0]], [[3, 0]], [[3, 1]], [[2, 1]], [[5, 0]]],
+                                    [[[0, 0], [1, 0]], [[3, 0], [3, 1]], [[5, 0], [2, 1]]]]})
     return out
 
 
